@@ -1,8 +1,92 @@
 import Crusta.Proofs.Oracle
+import Crusta.Proofs.DynHistory
+
+/-!
+# C08 — dynamic solvers always answer for the current framework (property theorems)
+
+The model is `Crusta.Dyn` (`Model/Dyn.lean`), replayed call by call against the implementation by
+the `dyn` family (`trace=1`).  The theorems below are about every state reachable from a fresh
+solver by any sequence of update calls and of queries (about arguments of the framework) that ran
+to completion on replies a correct SAT solver may give (`RunSound`), with no bound on the length of
+the history, the number of arguments or the number of SAT variables retired.
+
+`dynamic_answers_for_current_framework` is proved for the complete and stable dynamic solvers
+(`sem ≠ PR`).  For the preferred solver the corresponding statement needs the soundness of the
+search for maximal extensions on the shared solver; it is covered by the trace correspondence and
+the per-answer judge only (**partial**, see DESIGN.md).
+-/
+
 namespace Crusta.C08
-open Crusta
+open Crusta Crusta.Dyn
+
 /-- the judge applied to every answer of a dynamic solver is the exact judge of C02–C04 run on the
 framework as it stands at the moment of the query -/
 theorem judge_is_exact (af : AF) (hwf : af.WF) (q : Query) (a : Answer) :
     checkAnswer af q a = .ok () ↔ Conforms af q a := checkAnswer_iff af hwf q a
+
+/-- **C08 for the complete and stable dynamic solvers.**  After any history of update calls `ops`
+and queries, a query about an argument of the framework, run on sound replies, returns the status
+and the certificate the semantics dictate for the framework obtained by applying `ops` (rejected
+updates having no effect) — whatever was asked, cached, buffered or retired before. -/
+theorem dynamic_answers_for_current_framework {sem : DSem} (hsem : sem ≠ .PR) {fuel : Nat}
+    {ops : List StoreOp} {d : DState} {w : World} (hreach : Reach sem fuel ops d w)
+    (q : DQuery) {l id : Nat} (hl : d.pending.Live id l) {rs : List Reply}
+    (hs : RunSound (query fuel d q l) rs w) {d' : DState} {a : AccAns} {w' : World}
+    (hrun : interp (query fuel d q l) rs w = (.done (d', a), w')) :
+    Store.runOps Store.empty ops = some d.pending ∧ AnswerOK sem d.pending q l a := by
+  obtain ⟨hq, henc, hops⟩ := reach_inv hsem hreach
+  exact ⟨hops, (query_ok hsem hq henc q hl hs hrun).2.2⟩
+
+/-- what `AnswerOK` says, spelled out for a credulous query: YES comes with an extension of the
+current framework that contains the argument, NO means that no extension contains it -/
+theorem credulous_answer_meaning (sem : DSem) (st : Store) (l id : Nat) (a : AccAns)
+    (h : AnswerOK sem st .cred l a) (hl : st.Live id l) :
+    (a.status = true → ∃ e, a.cert = some e ∧ IsExt sem st.g (ofList e) ∧ id ∈ e) ∧
+    (a.status = false → a.cert = none ∧ ∀ S, IsExt sem st.g S → S id = false) := h id hl
+
+theorem skeptical_answer_meaning (sem : DSem) (st : Store) (l id : Nat) (a : AccAns)
+    (h : AnswerOK sem st .skep l a) (hl : st.Live id l) :
+    (a.status = true → a.cert = none ∧ ∀ S, IsExt sem st.g S → S id = true) ∧
+    (a.status = false → ∃ e, a.cert = some e ∧ IsExt sem st.g (ofList e) ∧ id ∉ e) := h id hl
+
+/-- the semantics used above are the textbook ones: on a compact framework they are the
+definitions of the spec layer -/
+theorem semantics_are_the_spec (af : AF) (S : ASet) :
+    (af.g.Complete S ↔ Complete af S) ∧ (af.g.Stable S ↔ Stable af S) ∧ (af.g.Preferred S ↔ Preferred af S) :=
+  ⟨AF.g_complete af S, AF.g_stable af S, AF.g_preferred af S⟩
+
+/-- **re-encoding.**  Whatever updates are buffered, `update_encoding` leaves the solver's
+framework equal to the pending one and a clause database in which no stale constraint is active
+(`DInv.clean`: nothing dirty) — this is what makes retired selectors and removed arguments
+harmless. -/
+theorem update_encoding_resynchronises {sem : DSem} {d : DState} {w : World} (h : DInv sem d w) :
+    wp True d.updateEncoding w (fun d' w' => DInv sem d' w' ∧ d'.af = d.pending ∧ d'.pending = d.pending ∧
+      d'.buffer = d.buffer ∧ d'.next = d.buffer.length) := wp_updateEncoding h
+
+/-- **soundness and completeness of the incremental encoding**: with nothing dirty, the
+assignments satisfying the clause database under the current assumptions are exactly (on the
+argument variables) the complete — resp. stable — extensions of the solver's framework -/
+theorem incremental_encoding_exact {sem : DSem} {st : Store} {e : Enc} {Γ : Cnf} (hinv : st.Inv)
+    (h : CleanEnc sem st e Γ) :
+    (∀ ν : Asg, cnfTrue ν Γ = true → assumpsTrue ν e.assumptions = true → EncExt sem st.g (setOf st e ν)) ∧
+    (∀ S : ASet, EncExt sem st.g S → ∃ ν : Asg, cnfTrue ν Γ = true ∧ assumpsTrue ν e.assumptions = true ∧
+      ∀ i, st.hasId i = true → ν (e.xv i) = S i) :=
+  ⟨fun _ hΓ hA => models_ext hinv h hΓ hA, fun _ hS => ext_model hinv h hS⟩
+
+/-- a cached answer is only ever read from a computation that no update separates from the query -/
+theorem cache_reads_are_after_last_update (evs : List Event) (l : Nat) (b : Bool) (e : List Nat) :
+    (cachedCred evs l = (some b, some e) ∨ cachedSkep evs l = (some b, some e)) →
+    ∃ c ∈ evs.takeWhile (fun ev => !ev.isUpdate), ∃ acc ref,
+      (c = .cred acc ref (some e) ∨ c = .skep acc ref (some e)) := by
+  rintro (h | h)
+  · obtain ⟨_, c, hc, acc, ref, hcc, _⟩ := cachedCred_spec evs l b e h
+    exact ⟨c, hc, acc, ref, hcc⟩
+  · obtain ⟨_, c, hc, acc, ref, hcc, _⟩ := cachedSkep_spec evs l b e h
+    exact ⟨c, hc, acc, ref, hcc⟩
+
+/-- non-vacuity: a fresh solver is reachable and after `A1; A2; +1>2` the argument labelled 2 is an
+argument of the pending framework -/
+example : ∃ d w, Reach .CO 100 [.newArg 1, .newArg 2, .newAtt 1 2] d w ∧ d.pending.Live 1 2 :=
+  ⟨_, _, Reach.update (.newAtt 1 2) (Reach.update (.newArg 2) (Reach.update (.newArg 1) Reach.init)), by unfold Store.Live; decide⟩
+
 end Crusta.C08
